@@ -1,5 +1,6 @@
 import Iauthd.Proto.Props
 import Iauthd.Proto.Start07
+import Iauthd.Proto.Link07
 import Iauthd.Properties.C10
 /-
   Property C07 — "Concurrent clients do not interfere" (model part): frame theorems.  Whatever
@@ -90,6 +91,14 @@ example : ¬ ClientLine (b "5 X svc 7_1 :OK") := by
   intro h
   have := h.2 (b "X") [b "svc", b "7_1", b "OK"] (by decide)
   exact absurd this.1 (by decide)
+
+/-- the reply event of the history theorems is the reply *line*: for a stored request and a service
+    name that is a word, `stepLine` on `-1 X <service> <that request's routing tag> :<text>` (or the
+    `x` notice) is the reply event for that client -/
+theorem C07_reply_event_is_line (s : State) (hs : StateOK s) (r : Req) (hf : findReq s.reqs r.client = some r)
+    (isX : Bool) (svc text : Bytes) (hsv : IWord svc) :
+    stepLine s (replyLine isX svc (routing r) text) = exec07 s (.reply r.client svc (if isX then some text else none)) :=
+  reply_is_line s hs r hf isX svc text hsv
 
 /-- two interleavings of the same per-client streams give `cl` the same conversation as `cl` alone,
     hence the same as each other (up to the serial in the routing tags): the statement of the
